@@ -817,3 +817,35 @@ def check_no_unreviewed_shared_state(ctx, rule: str, class_names: List[str], mod
         fi, node, how = sites[0]
         raise AnalysisError(f"{key} is shared between calls and mutated at run time ({how} in {fi.where}, line {getattr(node, 'lineno', '?')}, {len(sites)} site(s)): whether {what} stay independent of earlier calls is not decided")
     ctx.ok(rule, ",".join(class_names + module_names), f"no unreviewed container shared between calls in {class_names + module_names} ({n} table(s) examined)")
+
+
+# ----------------------------------------------------------------------------- reach conditions
+
+
+def reach_conditions(fi: "FuncInfo", wanted, classify):
+    """For every node selected by ``wanted`` say under which polarity of the classified test it is reached
+    ('T', 'F' or '?'): if/else, and `if C: ...; return` followed by the other case."""
+    out = {}
+
+    def flip(p):
+        return {"T": "F", "F": "T"}.get(p, "?")
+
+    def walk(stmts, cond):
+        for i, st in enumerate(stmts):
+            if isinstance(st, ast.If):
+                p = classify(st.test)
+                inner = (p if cond is None else "?") if p else cond
+                walk(st.body, inner)
+                walk(st.orelse, (flip(p) if cond is None else "?") if p else cond)
+                ends = bool(st.body) and isinstance(st.body[-1], (ast.Return, ast.Raise, ast.Continue, ast.Break))
+                if p and ends and not st.orelse and cond is None:
+                    walk(stmts[i + 1:], flip(p))
+                    return
+                continue
+            for n in ast.walk(st):
+                if wanted(n):
+                    out.setdefault(id(n), (n, set()))[1].add(cond if cond else "-")
+    walk(fi.body, None)
+    return [(n, (next(iter(c)) if len(c) == 1 else "?")) for n, c in out.values()]
+
+
